@@ -60,6 +60,13 @@ def structured(tier):
             evs += recover_events(fails, cm)
             evs += ["A:537", "F:p:69", "F:f"]
         yield (cfg, 1, script, evs)
+    # the peer stalls at every cut point of a frame (before the delimiter, inside the header, right after it, inside
+    # the body, before the last byte): the read in progress must time out READER_TIMEOUT after it STARTED
+    for k in range(0, 15):
+        for w in (37, 3037, 8037):
+            for rc in ((1, 0) if k in (0, 7, 9) else (1,)):
+                evs = ["C", "F:p:69", f"A:{w}", f"S:{k}", "A:10037", "A:537"] + (["F:p:69", "F:f"] if rc else ["C", "F:p:69"])
+                yield (3, rc, ["ooo", "ooo", "ooo"], evs)
     # reconnect off: loss is announced, nothing reconnects, a later connect() works again
     for fault in FAULTS:
         for first in ("ooo", "e", "h"):
@@ -112,11 +119,6 @@ def evaluate(res, hists, labels):
         if m is None:
             res.fail("corr", dict(history=line), "a model answer", "bad-op", "the model driver rejected the history")
             continue
-        if m == "gated":  # statement-level oracle only (frames in the middle of handling are not modelled)
-            res.count("oracle-only:gated")
-            for clause, detail in connspec.spec_c11(h, segs, extras, states):
-                res.fail("spec", dict(history=line), clause, detail, clause)
-            continue
         if connhist.has_tie(m, len(segs)):
             res.count("skipped:timer-tie")
             continue
@@ -139,8 +141,8 @@ def run(ctx):
                 "drain() raising, drain() hanging), scripted open results (ok / OSError / hang) with virtual time for the "
                 "back-off, repeated cycles; systematic product (fault kind x fault position x failed attempts x wait_closed "
                 "mode x cycles x consumers_count), 'gated' histories (loss while frame consumers are mid-frame behind a slow "
-                "subscriber of the protocol's new-device event, released before / during / after the outage; judged by the "
-                "statement-level oracle only) plus seeded random histories; distinct = distinct history text; "
+                "subscriber of the protocol's new-device event, released before / during / after the outage), stalls of the peer at "
+                "every cut point of a frame, plus seeded random histories; distinct = distinct history text; "
                 "non-trivial = at least one connection loss was handled (a transport was closed)")
     check_tables(res)
     hists, labels = [], []
